@@ -168,10 +168,11 @@ def cls (s : CS) : Nat :=
   | some w =>
     match s.ro.phase, s.ro.reason with
     | .healthy, _ =>
-      if w.inProgressAnno then (if w.generation = w.observedGeneration then 2 else 1)
+      if w.inProgressAnno then
+        (if w.updateRevision == w.currentRevision then 0 else if w.generation = w.observedGeneration then 2 else 1)
       else if s.br.isNone && (match s.ro.sub with | some sub => sub.state != .paused | none => false) &&
               csObserve s.ro (roWl w) == s.ro then 40 else 0
-    | .progressing, .initializing => if s.ro.condAge = .fresh then 0 else 4
+    | .progressing, .initializing => if s.ro.condAge = .fresh || w.updateRevision == w.currentRevision then 0 else 4
     | .progressing, .inRolling =>
       (match s.ro.sub with
        | none => 0
@@ -179,13 +180,13 @@ def cls (s : CS) : Nat :=
          match sub.state with
          | .init =>
            (match s.br with
-            | none => if sub.curIdx = 1 then 5 else 0
+            | none => if sub.curIdx = 1 && w.updateRevision != w.currentRevision then 5 else 0
             | some b => if brSync b w && brInit b w && b.st.batchState == .ready && b.st.hasReadyTime &&
                            b.partition == some (sub.curIdx - 2) && b.st.currentBatch == sub.curIdx - 2 &&
                            RV.Oracle.Executor.batchReadyNow (exBr b) (some (exWl w)) then 5 else 0)
          | .upgrade =>
            (match s.br with
-            | none => if sub.curIdx = 1 then 6 else 0
+            | none => if sub.curIdx = 1 && w.updateRevision != w.currentRevision then 6 else 0
             | some b =>
               if b.partition == some (sub.curIdx - 2) then
                 (if brSync b w && brInit b w && b.st.batchState == .ready && b.st.hasReadyTime && b.st.currentBatch == sub.curIdx - 2 &&
@@ -250,5 +251,12 @@ def doneInv (s : CS) : Bool :=
   | some w =>
     (decide (12 < mu s) || (w.partition.isNone && !w.paused && w.owner == .none)) &&
     (decide (1 < mu s) || s.ro.succeeded == some true)
+
+/-- the release policy of the BatchRelease while the rollout is rolling (`32 < mu`) is the empty one the Rollout controller writes
+    (carried along the rounds next to `liveInv`; `WaitResume` is written only by the clean-up) -/
+def polInv (s : CS) : Bool :=
+  match s.br with
+  | some b => decide (mu s ≤ 32) || b.policy == ""
+  | none => true
 
 end RV.Oracle.ClosedLoop
